@@ -17,6 +17,10 @@ pub open spec fn foreign_pos(n: Seq<char>, m: Map<Seq<char>, Seq<char>>) -> bool
         m.dom().contains("x"@) || m.dom().contains("y"@) || m.dom().contains("x1"@) || m.dom().contains("y1"@) || m.dom().contains("x2"@) || m.dom().contains("y2"@)
     } else if n == "line"@ {
         m.dom().contains("x"@) || m.dom().contains("y"@) || m.dom().contains("cx"@) || m.dom().contains("cy"@) || m.dom().contains("width"@) || m.dom().contains("height"@)
+    } else if n == "polyline"@ || n == "polygon"@ || n == "path"@ {
+        // drawn from points / d and MOVED by a translate computed from any position attribute: none of them is native
+        m.dom().contains("x"@) || m.dom().contains("y"@) || m.dom().contains("cx"@) || m.dom().contains("cy"@)
+        || m.dom().contains("x1"@) || m.dom().contains("y1"@) || m.dom().contains("x2"@) || m.dom().contains("y2"@)
     } else { false }
 }
 /// a dx / dy offset not yet folded into the position (native, and therefore final, on text / tspan / feOffset)
